@@ -12,7 +12,7 @@ def build_cls(cls, group, shuffle=None):
 
 
 class Dut:
-  def __init__(self, top_ir, group="dynamic", hook=None, cls=None, keep_dag=False, shuffle=None, _no_ir=False):
+  def __init__(self, top_ir, group="dynamic", hook=None, cls=None, keep_dag=False, shuffle=None, _no_ir=False, dump_dag=None):
     """hook(top) is called after the scheduling pass and before the simulator
     is prepared (only for group 'simple': schedule surgery)."""
     from pymtl3.passes.sim.GenDAGPass import GenDAGPass
@@ -26,7 +26,7 @@ class Dut:
     # dump_dag() renders a graphviz picture into /tmp and opens a viewer before the passes raise
     # UpblkCyclicError; it is a debugging aid with no effect on the verdict, so it is silenced here
     import pymtl3.passes.sim.SimpleSchedulePass as _ssp
-    _ssp.dump_dag = lambda *a, **k: None
+    _ssp.dump_dag = dump_dag or (lambda *a, **k: None)      # dump_dag=...: environment answer chosen by the harness (e.g. "no viewer installed")
     self.ir = top_ir
     self.modname = None
     if cls is None:
